@@ -19,8 +19,10 @@ Trace == ndJsonDeserialize("trace.ndjson")
 VARIABLES l, bad, nchk
 vars == <<l, bad, nchk>>
 
-Ops == {"add", "sub", "mul", "div", "mod", "lt", "le", "gt", "ge", "eq", "ne", "neg", "strset", "strdecl", "strapp"}
-Arith == {"add", "sub", "mul", "div", "mod", "neg"}
+Ops == {"add", "sub", "mul", "div", "mod", "lt", "le", "gt", "ge", "eq", "ne", "neg", "strset", "strdecl", "strapp", "disp"}
+\* "disp" (C04): a double shown in a line; `got` is the token of the shown text read back as a decimal (signed
+\* zeros alike), or "unparsable", or "haspoint" when an integral number was shown with a decimal point
+Arith == {"add", "sub", "mul", "div", "mod", "neg", "disp"}
 \* string literals with escapes (C03: set / declare / += store the literal's value): tokens "s" + hex of the
 \* bytes; `alt` is the second reading of such a literal (escapes resolved) - either is the literal's value
 StrOps == {"strset", "strdecl", "strapp"}
